@@ -60,7 +60,7 @@ CLAIMS.update({
         text="Per enumerated (glob, options) program the real GlobBuilder is run and z3 decides for ALL paths up to L bytes: the "
              "strategy a glob SET would choose for the glob (real MatchStrategy::new through the verif-hooks accessor) means the same "
              "as the glob's own regex (G-STRAT); globs over the simple token subset (literals, ?, *, classes, escapes) mean what the "
-             "documented syntax says (G-MEAN, reference compiled independently). The set's index-merging code is exercised on "
+             "documented syntax says (G-MEAN, reference compiled independently), and a glob that is one whole alternation {x,y,..} equals the union of its branches compiled as globs of their own (branches beginning with ** excluded). The set's index-merging code is exercised on "
              "solver-chosen paths: one path per satisfiable combination of member verdicts for random and for RELATED member sets "
              "(same strategy, nested prefixes/suffixes), real GlobSet::matches vs each member alone (G-SET). Kani lemmas on fully "
              "symbolic 6-byte paths for pathutil::file_name / file_name_ext (the pieces the strategies look at).",
